@@ -80,7 +80,21 @@ impl fmt::Debug for Final {
 impl fmt::Display for Final {
     fn fmt(&self, f: &mut fmt::Formatter) -> fmt::Result {
         let mut skipping: Option<Tmr> = None;
-        for data in self.verbose_pre_order_iter::<NoSharing>(None) {
+        for data in self.verbose_pre_order_iter::<NoSharing>(Some(super::MAX_DISPLAY_DEPTH)) {
+            if data.index > super::MAX_DISPLAY_LENGTH {
+                write!(
+                    f,
+                    "... [truncated type after {} nodes]",
+                    super::MAX_DISPLAY_LENGTH
+                )?;
+                return Ok(());
+            }
+            if data.depth == super::MAX_DISPLAY_DEPTH {
+                if data.n_children_yielded == 0 {
+                    f.write_str("...")?;
+                }
+                continue;
+            }
             if let Some(skip) = skipping {
                 if data.is_complete && data.node.tmr == skip {
                     skipping = None;
